@@ -44,12 +44,33 @@ func isTypeDeclaration(line string) bool {
 	return len(fields) == 2 || strings.HasPrefix(fields[2], "#")
 }
 
+// GetConditionLineNumber returns the line on which the condition is declared. The lines of a condition's body
+// (everything up to its closing brace) are expression text: one of them may read like a condition header.
 func GetConditionLineNumber(conditionName string, lines []string) int {
-	return slices.IndexFunc(lines, func(line string) bool {
-		name, ok := declarationName(line, "condition")
+	inBody := false
 
-		return ok && name == conditionName
-	})
+	for index, line := range lines {
+		if inBody {
+			inBody = !strings.Contains(line, "}")
+
+			continue
+		}
+
+		name, ok := declarationName(line, "condition")
+		if !ok {
+			continue
+		}
+
+		if name == conditionName {
+			return index
+		}
+
+		if open := strings.Index(line, "{"); open != -1 {
+			inBody = !strings.Contains(line[open:], "}")
+		}
+	}
+
+	return -1
 }
 
 func GetTypeLineNumber(typeName string, lines []string) int {
